@@ -303,6 +303,9 @@ func c04test(vs []gen.Variant) (kind, what, detail, printed string) {
 	x := gen.Module(vs)
 	m, errs, pan := parseTry(x)
 	if errs != "" || pan != "" {
+		if len(vs) > 1 {
+			return "split", "", "", "" // isolate the variant the parser does not accept
+		}
 		return "", "", "", "" // not accepted: outside C04's quantifier
 	}
 	var bad []string
